@@ -14,10 +14,13 @@ import (
 	"os"
 	"strings"
 	"sync"
+	"sync/atomic"
 	"time"
 
 	"github.com/go-kid/ioc/app"
+	"github.com/go-kid/ioc/component_definition"
 	"github.com/go-kid/ioc/container"
+	"github.com/go-kid/ioc/container/processors"
 	"github.com/go-kid/ioc/syslog"
 	"github.com/go-kid/ioc/util/list"
 	"github.com/go-kid/ioc/util/sync2"
@@ -30,16 +33,26 @@ type raceScenario struct {
 	Iter    int    `json:"iter"`
 }
 
-type rcomp struct{ name string }
+type rcomp struct {
+	name string
+	X    string `rtag:"x"` // claimed by the fail scanner's own tag (a custom tag, as a user-written scanner would have)
+}
 
 func (c *rcomp) Naming() string { return c.name }
 
 type failScanner struct {
-	failing map[string]bool
-	arrive  sync.WaitGroup
-	release chan struct{}
-	once    sync.Once
+	processors.DefaultTagScanDefinitionRegistryPostProcessor
+	failing  map[string]bool
+	arrive   sync.WaitGroup
+	release  chan struct{}
+	once     sync.Once
+	hold     chan struct{} // non-failing scanner calls wait here (until Run has returned, or 100 ms) when something fails
+	holdOnce sync.Once
+	started  int64
+	finished int64
 }
+
+func (f *failScanner) openHold() { f.holdOnce.Do(func() { close(f.hold) }) }
 
 func (f *failScanner) Naming() string { return "zz-failscanner" }
 func (f *failScanner) PostProcessDefinitionRegistry(registry container.DefinitionRegistry, component any, name string) error {
@@ -58,7 +71,18 @@ func (f *failScanner) PostProcessDefinitionRegistry(registry container.Definitio
 		<-f.release
 		return errors.New("scan-failure-" + name)
 	}
-	return nil
+	if len(f.failing) > 0 && f.hold != nil {
+		// the other components' scans are still under way when the failing ones report: a start-up that returns without
+		// joining them leaves them running next to whatever the caller does with the container afterwards
+		atomic.AddInt64(&f.started, 1)
+		defer atomic.AddInt64(&f.finished, 1)
+		select {
+		case <-f.hold:
+		case <-time.After(100 * time.Millisecond):
+		}
+	}
+	// what every tag scanner does: record the fields carrying its tag in the component's definition
+	return f.DefaultTagScanDefinitionRegistryPostProcessor.PostProcessDefinitionRegistry(registry, component, name)
 }
 
 type rcloser struct {
@@ -90,18 +114,31 @@ func cmdRace(in string) error {
 	out := map[string]any{"kind": sc.Kind, "n": sc.N, "failing": sc.Failing, "ok": true, "kept": 0}
 	switch sc.Kind {
 	case "scan":
-		fs := &failScanner{failing: map[string]bool{}, release: make(chan struct{})}
+		fs := &failScanner{failing: map[string]bool{}, release: make(chan struct{}), hold: make(chan struct{})}
+		fs.Tag, fs.NodeType = "rtag", component_definition.PropertyTypeConfiguration
 		var comps []any
 		for i := 1; i <= sc.N; i++ {
 			n := fmt.Sprintf("rc%03d", i)
-			comps = append(comps, &rcomp{n})
+			comps = append(comps, &rcomp{name: n})
 			if i <= sc.Failing {
 				fs.failing[n] = true
 			}
 		}
 		fs.arrive.Add(sc.Failing)
-		rerr := app.NewApp().Run(app.LogLevel(syslog.LvPanic), app.SetComponents(append(comps, fs)...))
+		ap := app.NewApp()
+		rerr := ap.Run(app.LogLevel(syslog.LvPanic), app.SetComponents(append(comps, fs)...))
 		out["ok"] = rerr == nil
+		// scanner calls still in flight when Run returned (0 for a start-up that joins its scan phase) ...
+		out["inflight"] = atomic.LoadInt64(&fs.started) - atomic.LoadInt64(&fs.finished)
+		fs.openHold()
+		// ... and what a caller may do next: look at the definitions the scan phase wrote
+		for t := 0; t < 20; t++ {
+			for _, m := range ap.GetDefinitionRegistry().GetMetas() {
+				_ = m.GetAllProperties()
+				_ = m.Name()
+			}
+			time.Sleep(time.Millisecond)
+		}
 		kept := 0
 		if rerr != nil {
 			for n := range fs.failing {
